@@ -98,6 +98,8 @@ def _install_gates(report_w, go_r, formats_halfway=True):
             gate("release " + self.lock_file)
             _o(self)
             say("ev released " + self.lock_file)
+            # whatever the code does right after giving the lock up happens at a moment of the controller's choosing
+            gate("after-release " + self.lock_file)
 
         cls._acquire = _acquire
         cls._release = _release
@@ -137,10 +139,31 @@ def _install_gates(report_w, go_r, formats_halfway=True):
     return say, gate
 
 
-class GatedRun(object):
-    """Fork one child per program; each program is a zero-argument callable run in the child."""
+def run_child(report_w, go_r, prog):
+    """the body of a gated child once its pipes exist (used after fork and by the exec'd interpreter)"""
+    devnull = os.open(os.devnull, os.O_WRONLY)
+    os.dup2(devnull, 1)
+    say, gate = _install_gates(report_w, go_r)
+    gate("start")
+    try:
+        prog()
+        say("done")
+    except BaseException as e:  # noqa
+        say("error " + (type(e).__name__ + ": " + str(e)).replace("\n", " ")[:500])
+        say("ev traceback " + traceback.format_exc().replace("\n", " | ")[-1500:])
 
-    def __init__(self, programs):
+
+class GatedRun(object):
+    """Fork one child per program; each program is a zero-argument callable run in the child.
+
+    A program may instead be a spec {"module": ..., "func": ..., "args": [...]} (module.func(*args) returns the
+    callable); with fresh_interpreters=True such a child is a newly started Python interpreter (fork + exec) with its
+    own PYTHONHASHSEED, i.e. an independently started job rather than a forked worker."""
+
+    def __init__(self, programs, fresh_interpreters=False):
+        import importlib
+        import json
+
         self.children = []
         self.order = []  # global order of completed steps: (child, what)
         for i, prog in enumerate(programs):
@@ -155,6 +178,14 @@ class GatedRun(object):
                     for c in self.children:
                         os.close(c.rfd)
                         os.close(c.wfd)
+                    if isinstance(prog, dict):
+                        if fresh_interpreters:
+                            os.set_inheritable(w1, True)
+                            os.set_inheritable(r2, True)
+                            env = dict(os.environ)
+                            env["PYTHONHASHSEED"] = str(1000 + 7 * i)
+                            os.execve(sys.executable, [sys.executable, "-m", "vt.gated", str(w1), str(r2), json.dumps(prog)], env)
+                        prog = getattr(importlib.import_module(prog["module"]), prog["func"])(*prog["args"])
                     devnull = os.open(os.devnull, os.O_WRONLY)
                     os.dup2(devnull, 1)
                     say, gate = _install_gates(w1, r2)
@@ -280,3 +311,16 @@ class GatedRun(object):
                 os.close(c.rfd)
             except OSError:
                 pass
+
+
+if __name__ == "__main__":
+    # a freshly started interpreter acting as one gated child: python -m vt.gated <report fd> <go fd> <program spec>
+    import importlib
+    import json
+
+    _w, _r, _spec = int(sys.argv[1]), int(sys.argv[2]), json.loads(sys.argv[3])
+    try:
+        _prog = getattr(importlib.import_module(_spec["module"]), _spec["func"])(*_spec["args"])
+        run_child(_w, _r, _prog)
+    finally:
+        os._exit(0)
